@@ -45,4 +45,7 @@ pub const EXTRA_DOCS: &[&str] = &[
     "[\"\\ud800\",\"\\udc00\\ud800\",\"\\ud800\\u0041\"]",
     "123456789012345678901234567890.123456789012345678901234567890e-123",
     "\"é€😀\u{7f}\u{feff}\"",
+    // every escape whose value is itself a special character of some implementation: NUL, the replacement
+    // character, non-characters, BOM, line separators
+    "[\"\\u0000\\ufffd\\uFFFD\\ufffe\\uffff\\ufeff\\u2028\\u2029\\u007f\\u0080\", {\"\\ufffd\": \"\\ud7ff\\ue000\"}]",
 ];
